@@ -5,9 +5,10 @@ diff="$1"; shift
 if [ -n "$(git -C /repo status --porcelain)" ]; then echo "/repo not clean"; exit 3; fi
 git -C /repo apply "$diff" || { echo "patch does not apply"; exit 3; }
 for pid in "$@"; do
-  out=$(cd /verif && ./check "$pid" 2>&1 | grep -v "WARNING conda")
+  out=$(cd /verif && VERIF_EVIDENCE_DIR=$(mktemp -d /tmp/verif-try-XXXXXX) ./check "$pid" 2>&1 | grep -v "WARNING conda")
   rc=$?
   echo "$out" | grep -E "^VIOLATION|\[R[0-9]|ANALYSIS-ERROR|obligations=" | cut -c1-400
 done
 git -C /repo checkout -- .
+rm -rf /tmp/verif-try-*
 git -C /repo status --porcelain | head -3
